@@ -170,22 +170,24 @@ Section Packer.
   Notation process := (process State exec apply_updates rewards sanity root_of_state root_of_receipts root_of_txs has_tx find_meta).
   Notation pack_block := (pack_block State exec apply_updates rewards root_of_state root_of_receipts root_of_txs has_tx find_meta).
 
-  (* what is assumed of the abstract execution (C07's gas_bounds; ResolveTransaction needs the origin) *)
+  (* what is assumed of the abstract execution: a receipt uses at most the tx gas (C07's gas_bounds), ResolveTransaction
+     needs the origin, and runtime.PrepareTransaction refuses a tx whose gas exceeds the block gas limit *)
   Definition exec_sane : Prop :=
-    forall ctx st t st' r, exec ctx st t = Some (st', r) -> r_gas r <= t_gas t /\ t_origin_ok t = true.
+    forall ctx st t st' r, exec ctx st t = Some (st', r) ->
+      r_gas r <= t_gas t /\ t_origin_ok t = true /\ t_gas t <= x_gas_limit ctx.
 
   Definition two63 : N := 9223372036854775808.
   Definition two62 : N := 4611686018427387904.
 
   (* one Adopt call: an adopted transaction satisfies the body rules and the loop checks of verifyBlock *)
   Lemma adopt_one_adopted cfg ctx st proc used t st' r :
-    exec_sane -> used <= x_gas_limit ctx -> x_gas_limit ctx < two63 -> t_gas t < two63 ->
+    exec_sane -> used <= x_gas_limit ctx -> x_gas_limit ctx < two63 ->
     adopt_one cfg (features_at cfg (x_number ctx)) ctx st proc used t = Adopted State st' r ->
     tx_body_check cfg (x_number ctx) (features_at cfg (x_number ctx)) t = None /\
     known has_tx proc t = false /\ dep_check find_meta proc t = DepOk /\ exec ctx st t = Some (st', r) /\
     used + r_gas r <= x_gas_limit ctx.
   Proof.
-    intros Hex Hu Hl Hg. unfold Body.adopt_one, tx_body_check.
+    intros Hex Hu Hl. unfold Body.adopt_one, tx_body_check.
     destruct ((c_blocklist cfg <=? x_number ctx) && t_origin_blocked t) eqn:E1; [discriminate|].
     destruct (t_delegator_ok t) eqn:E2; cbn [negb]; [|discriminate].
     destruct ((c_blocklist cfg <=? x_number ctx) && t_delegator_blocked t) eqn:E3; [discriminate|].
@@ -201,37 +203,35 @@ Section Packer.
     destruct (known has_tx proc t) eqn:E11; [discriminate|].
     destruct (dep_check find_meta proc t) eqn:E12; try discriminate.
     destruct (exec ctx st t) as [[st1 r1]|] eqn:E13; [|discriminate].
-    intros E. inversion E; subst st1 r1. destruct (Hex _ _ _ _ _ E13) as [Hgas Hor].
+    intros E. inversion E; subst st1 r1. destruct (Hex _ _ _ _ _ E13) as (Hgas & Hor & Hg).
     rewrite Hor. cbn [negb andb orb].
     repeat split; auto.
     unfold wrap64, two63 in *. rewrite N.mod_small in E9 by lia. lia.
   Qed.
 
   Lemma adopt_all_verified cfg ctx txs : forall st proc used ts rs stf u,
-    exec_sane -> used <= x_gas_limit ctx -> x_gas_limit ctx < two63 -> Forall (fun t => t_gas t < two63) txs ->
+    exec_sane -> used <= x_gas_limit ctx -> x_gas_limit ctx < two63 ->
     adopt_all cfg (features_at cfg (x_number ctx)) ctx txs st proc used = (ts, rs, stf, u) ->
     verify_txs ctx ts st proc used = VOk State stf rs u /\ u <= x_gas_limit ctx /\
     body_txs_check cfg (x_number ctx) (features_at cfg (x_number ctx)) ts = None.
   Proof.
-    induction txs as [|t l IH]; intros st proc used ts rs stf u Hex Hu Hl Hg; cbn [Body.adopt_all].
+    induction txs as [|t l IH]; intros st proc used ts rs stf u Hex Hu Hl; cbn [Body.adopt_all].
     - intros E. inversion E; subst. cbn. auto.
-    - inversion Hg as [|? ? Hgt Hgl]; subst.
-      destruct (adopt_one cfg (features_at cfg (x_number ctx)) ctx st proc used t) as [st' r|why] eqn:Ea.
-      + destruct (adopt_one_adopted _ _ _ _ _ _ _ _ Hex Hu Hl Hgt Ea) as (B & K & D & X & G).
+    - destruct (adopt_one cfg (features_at cfg (x_number ctx)) ctx st proc used t) as [st' r|why] eqn:Ea.
+      + destruct (adopt_one_adopted _ _ _ _ _ _ _ _ Hex Hu Hl Ea) as (B & K & D & X & G).
         destruct (adopt_all cfg (features_at cfg (x_number ctx)) ctx l st' ((t_id t, r_reverted r) :: proc) (used + r_gas r))
           as [[[ts' rs'] stf'] u'] eqn:Er.
-        intros E. inversion E; subst. destruct (IH _ _ _ _ _ _ _ Hex G Hl Hgl Er) as (V & U & Bd).
+        intros E. inversion E; subst. destruct (IH _ _ _ _ _ _ _ Hex G Hl Er) as (V & U & Bd).
         cbn [Body.verify_txs body_txs_check]. rewrite K, D, X, B. rewrite (proj2 (N.ltb_ge _ _) G). rewrite V. auto.
-      + intros E. apply (IH _ _ _ _ _ _ _ Hex Hu Hl Hgl E).
+      + intros E. apply (IH _ _ _ _ _ _ _ Hex Hu Hl E).
   Qed.
 
   (* ---------------------------------------------------------------- the theorem *)
-  Record premises (cfg : config) (pv : pview) (parent : header) (po : packer_opts) (txs : list txn) : Prop := {
+  Record premises (cfg : config) (pv : pview) (parent : header) (po : packer_opts) : Prop := {
     pr_interval : 0 < c_interval cfg;
     pr_number : h_number parent + 1 < 4294967296;
     pr_parent_gl : 1000000 <= h_gas_limit parent /\ h_gas_limit parent < two62;
     pr_target : po_target_gl po < two63;
-    pr_tx_gas : Forall (fun t => t_gas t < two63) txs;
     pr_unique : NoDup (map cand_addr (pv_cands pv));
     pr_exec : exec_sane }.
 
@@ -243,7 +243,7 @@ Section Packer.
     (c_vip214 cfg <= h_number parent + 1 -> sr_beta sr <> None).
 
   Theorem packed_block_accepted_lemma cfg pv parent po now st0 txs vote sr b stp rcs vnow :
-    premises cfg pv parent po txs -> crypto_roundtrip cfg parent po sr ->
+    premises cfg pv parent po -> crypto_roundtrip cfg parent po sr ->
     pack_block cfg pv parent po now st0 txs vote sr = Some (b, stp, rcs) ->
     (* the total score grows and does not wrap *)
     h_total_score parent < h_total_score (b_header b) ->
@@ -253,7 +253,7 @@ Section Packer.
     h_time (b_header b) <= vnow + c_interval cfg ->
     process cfg pv parent st0 b vnow = Accepted State stp rcs.
   Proof.
-    intros P (C1 & C2 & C3) Hpack Hscore Hsan Hnow. destruct P as [PT PN [PG1 PG2] PTg PX PU PE].
+    intros P (C1 & C2 & C3) Hpack Hscore Hsan Hnow. destruct P as [PT PN [PG1 PG2] PTg PU PE].
     unfold Body.pack_block in Hpack.
     destruct (schedule_ctx cfg pv parent po now) as [[ctx0 ups]|] eqn:Es; [|discriminate].
     apply schedule_ctx_some in Es. destruct Es as (mep & t & Ef & Et & End & Hnp & -> & ->).
@@ -272,7 +272,7 @@ Section Packer.
     match type of Ea with adopt_all _ _ ?c _ ?s _ _ = _ => set (ctx := c) in *; set (st1 := s) in * end.
     assert (Hgv' := Hgv). apply gas_limit_valid_iff in Hgv'; [|exact Hgl | unfold two62, two63, two64 in *; lia].
     assert (Hlim : x_gas_limit ctx < two63) by (cbn [ctx x_gas_limit]; unfold two62, two63, two64 in *; lia).
-    destruct (adopt_all_verified cfg ctx txs st1 [] 0 ts rs stf used PE ltac:(lia) Hlim PX Ea) as (Hver & Hused & Hbody).
+    destruct (adopt_all_verified cfg ctx txs st1 [] 0 ts rs stf used PE ltac:(lia) Hlim Ea) as (Hver & Hused & Hbody).
     unfold Body.process; cbn [b_header b_txs h_features h_txs_root].
     rewrite N.eqb_refl; cbn [negb].
     match goal with |- context [validate_header cfg parent ?h vnow] =>
